@@ -201,6 +201,22 @@ def run(chk):
             continue
         out = [[None if np.isnan(v) else float(v) for v in row] for row in out]
         conservation_oracles(chk, rows, binby, ("w", w), out, inp)
+    # ---- float search, enumerated: largest range an exact decimal multiple of a decimal width (i/100 = m * j/100) -------------------
+    for j in range(1, 401 if not chk.quick else 201):
+        w = j / 100
+        for m in range(1, min(2000 // j, 60) + 1):
+            mx = (j * m) / 100
+            rows = [(mx, 0.5, 1.0), (mx / 2, -0.5, 0.5)]
+            chk.count("float-multiples")
+            inp = dict(table=[list(r) for r in rows], binby="range", kind="w", value=w)
+            try:
+                out = rebin(np.array(rows), binby="range", w=w)
+            except Exception as e:
+                chk.fail("rebin must not raise on a valid table", inp, "table", type(e).__name__, clause="raise")
+                continue
+            tot = float(np.nansum(out[:, 2]))
+            if abs(tot - 1.5) > 1e-9:
+                chk.fail("total cycle count conserved", inp, 1.5, tot, clause="total")
     # ---- entry points: TimeSeries / GUI data path ------------------------------------------------------------------------------
     from qats import TimeSeries
     from qats.app.funcs import calculate_rfc
